@@ -379,7 +379,7 @@ func c08Gen(r *Rand, tier string) []string {
 	}
 	// 4. the family generators (boundary values per helper)
 	for _, gen := range exprGens {
-		cases := gen(NewRand(r.U64()), "quick")
+		cases := c08SafeGen(gen, NewRand(r.U64()))
 		for i, c := range cases {
 			if !strings.HasPrefix(c, "expr ") {
 				continue
@@ -397,6 +397,18 @@ func c08Gen(r *Rand, tier string) []string {
 		infCap = 24
 	}
 	return c08CapInf(out, infCap)
+}
+
+// c08SafeGen runs a family generator of another property; some of them evaluate real code while
+// generating, so a defect in /repo can make them panic: that must not take the whole run down (the
+// families of this file then find the failing input).
+func c08SafeGen(gen func(r *Rand, tier string) []string, r *Rand) (cases []string) {
+	defer func() {
+		if e := recover(); e != nil {
+			cases = nil
+		}
+	}()
+	return gen(r, "quick")
 }
 
 // c08LongLoop: does the case (or one of its {@for …} / {@range …} sub-templates, evaluated on its own
